@@ -72,6 +72,9 @@ def iter_source(E, it, st):
     for s1, v in E.ev(it, st):
         if isinstance(v, Exc): yield s1, v, None; continue
         if isinstance(v.ty, SetVT): yield s1, "set", (v.ty.elem, v.v, None); continue
+        if isinstance(v.ty, TupT) and v.ty.items and all(t.sort == v.ty.items[0].sort for t in v.ty.items):
+            sq = SeqT(v.ty.items[0]); sv = E.coerce(v, sq, s1)
+            yield s1, "seq", (sq, sv.v, "plain"); continue
         ct = E.content_type(v) if v.ty.sort == Ref else None
         if isinstance(v.ty, SeqT) or isinstance(ct, ListT) or (isinstance(ct, DictT) and ct.ordered):
             sq, sv = E.seq_of(s1, v); yield s1, "seq", (sq, sv, "plain")
@@ -167,6 +170,9 @@ def run_loop(E, n, st, k, sp, names, kind, pl):
         nxt_env = env_of(i + 1)
     if E.feasible(s_in):
         s_in.trace.append("loop%d:body" % k)
+        # the hidden variables of this loop stay visible (under their numbered names) to the invariants of nested loops
+        s_in.hidden = dict(s_in.hidden)
+        s_in.hidden.update({nm: v for nm, v in cur_env.items() if nm[-1].isdigit()})
         for s1, o in E.assign(n.target, elem, s_in):
             if o is not None: yield s1, o; continue
             for s2, o2 in E.block(n.body, s1):
